@@ -404,7 +404,7 @@ func (g *G) Email() string {
 }
 
 // BranchName draws from a small pool whose members are prefixes of each other.
-var branchPool = []string{"main", "a", "b", "a.b", "ab", "a-b", "dev", "b_1", "B", "main2", "ma", "z.9", ".wip", "b.", ".a", "_", "0", "a.tmp", "main.tmp", "b.lock", "a~", "w", "w ", " w"}
+var branchPool = []string{"main", "a", "b", "a.b", "ab", "a-b", "dev", "b_1", "B", "main2", "ma", "z.9", ".wip", "b.", ".a", "_", "0", "a.tmp", "main.tmp", "b.lock", "a~", "w", "w ", " w", "Main", "HEAD", "W"}
 
 func (g *G) BranchName() string { return g.Pick(branchPool, "branch") }
 
@@ -424,14 +424,26 @@ func (g *G) OtherBranch() string {
 
 // FreeBranch picks a pool name that is not a branch yet ("" if none).
 func (g *G) FreeBranch() string {
-	var xs []string
+	var xs, related []string
 	for _, n := range branchPool {
-		if _, ok := g.E.Cur.Branches[n]; !ok {
-			xs = append(xs, n)
+		if _, ok := g.E.Cur.Branches[n]; ok {
+			continue
+		}
+		xs = append(xs, n)
+		// names that are variants of an existing branch name: other case, blanks at the ends, a prefix, a suffix
+		for e := range g.E.Cur.Branches {
+			a, b := strings.ToLower(strings.TrimSpace(n)), strings.ToLower(strings.TrimSpace(e))
+			if a == b || strings.HasPrefix(a, b) || strings.HasPrefix(b, a) {
+				related = append(related, n)
+				break
+			}
 		}
 	}
 	if len(xs) == 0 {
 		return ""
+	}
+	if len(related) > 0 && g.Chance(45, "relatedBranchName") {
+		return g.Pick(related, "relatedBranch")
 	}
 	return g.Pick(xs, "freeBranch")
 }
